@@ -44,7 +44,9 @@ CRITERIA = ['">1"', '"<2"', '">=0"', '"<=3"', '"<>3"', '"=1"', '"a*"', '"?b"', '
 UNITS = ['"y"', '"m"', '"d"', '"md"', '"ym"', '"yd"', '"Y"', '"x"']
 FORMATS = ['"yyyy"', '"0.00"', '"dd/mm/yyyy"', '"#,##0"', '"0%"', '"hh:mm"', '""', '"@"']
 DATES = ['"2020-02-29"', 'DATE(2020,2,29)', 'NOW()', '43890', '"10:30 PM"', 'TODAY()', '"March 5"', '1', '60', '61', '0.5',
-         '"1900-03-01"', '"31/12/1999"']
+         '"1900-03-01"', '"31/12/1999"', '"2021-05-06 10:00 XQZ"', '"10:30 PM EST"', '"2020-02-29T10:00:00+02:00"', '"2023-01-31"',
+         'DATE(2023,11,15)', '"2019-12-31"', '"May 6 2021 10:00 BRST"']
+SMALL_INTS = ['-14', '-12', '-2', '-1', '0', '1', '2', '3', '10', '11', '12', '13', '14', '24', '36']
 ARRAYS = ['{1,2,3}', '{3;1;2}', '{1,2;3,4}', '{"a","b","c"}', '{1,"a",TRUE}', 'A1:B2', 'B2:A1', '{5}', '{1,,2}', '{0.5,-1}',
           '{1,2,}', '{,1,2}', '{,}', '{;;}', '{1;2;}', '{10,20,30,}', '{1,1,1}', '{3,2,1}', '{"b","a",}', '{1,2,3;4,5,}']
 
@@ -72,6 +74,8 @@ def typed_arg(rng, env, pname, depth):
         return text_literal(rng)
     if 'date' in p or p in ('serial_number', 'time'):
         return rng.choice(DATES)
+    if p in ('month', 'months', 'instance_num', 'return_type', 'match_type', 'form', 'area_num') and rng.random() < 0.7:
+        return rng.choice(SMALL_INTS)
     if p in ('number', 'value', 'significance', 'num_chars', 'base', 'digits', 'places', 'month', 'year', 'day', 'n', 'power',
              'numerator', 'denominator', 'row_num', 'column_num', 'start_num', 'instance_num', 'match_type', 'hour',
              'minute', 'second', 'bottom', 'top', 'form', 'return_type', 'rate', 'periods', 'payment', 'x_num', 'y_num',
